@@ -1,6 +1,8 @@
 """Contracts for the parse entry points of fcp/parser.py (C11): no exception escapes."""
 
 OPAQUE = ["ext:pathlib.Path", "ext:lark.Lark"]
+OPAQUE_METHODS = ["resolve"]
+EFFECTS = ["append"]
 
 CLASSES = {
     "Logger": {"kind": "heap", "module": "fcp.error", "fields": {"sources": "dyn", "enable_file_paths": "bool"}},
@@ -17,13 +19,6 @@ def lark_parse(source: "any") -> "any":
 @assumed("fcp.parser:FcpV2Transformer.__init__")
 def transformer_init(self: "any", filename: "any", parser_context: "any", filesystem_proxy: "any", error_logger: "any" = None):
     note("straight-line assignments, one read through the filesystem proxy (same file that was just read) and one dict store")
-
-
-@assumed("opaque:FcpV2Transformer().transform")
-def lark_transform(tree: "any") -> "result[any,any]":
-    note("lark Transformer.transform calls the callbacks bottom-up and wraps any exception of a callback into VisitError; "
-         "the start callback returns a Result (its @catch turns failed attempts into the Err)")
-    may_raise(VisitError)
 
 
 @assumed("fcp.error:Logger.add_source")
@@ -74,3 +69,38 @@ def composed_type(self: "FcpV2Transformer", tree: "ref:LarkTree") -> "any":
                     result.is_ok() and cls_name(result.unwrap()) == "EnumType" and result.unwrap().name == tree.children[0]))
     ensures(implies(not has_struct_in(self.fcp.structs, tree.children[0]) and not has_enum_in(self.fcp.enums, tree.children[0]),
                     result.is_err() and str_contains(result.err().msg[0][0], tree.children[0])))
+
+
+@assumed("ext:read_file")
+def read_file(path: "any") -> "str":
+    note("`with open(p) as f: s = f.read()`: returns the file's text or raises FileNotFoundError (other OS errors are outside the domain)")
+    may_raise(FileNotFoundError)
+
+
+@assumed("opaque:FcpV2Transformer().transform")
+def nested_transform(tree: "any") -> "result[ref:FcpV2,heap:FcpError]":
+    note("see lark_transform above: the transformer's start() callback returns Ok(schema) or the Err of a failed attempt; a callback "
+         "exception is wrapped into VisitError")
+    may_raise(VisitError)
+
+
+@contract("fcp.parser:FcpV2Transformer.mod_expr")
+def mod_expr(self: "FcpV2Transformer", tree: "ref:LarkTree") -> "any":
+    note("C20/C11: an imported module is parsed by a nested transformer and merged at the point of the import; every failure is an error value")
+    modifies(self.fcp.structs, self.fcp.enums, self.fcp.impls, self.fcp.services, self.fcp.devices)
+    may_raise(VisitError)
+    ensures(result.is_ok() or result.is_err())
+    # transparency: on success the importing schema is the old one followed by the module's declarations, list by list
+    ensures_effects(implies(result.is_ok(),
+                            effect_count("call:FcpV2Transformer().transform") == 1
+                            and self.fcp.structs == old(self.fcp.structs) + effect_result("call:FcpV2Transformer().transform", 0).unwrap().structs
+                            and self.fcp.enums == old(self.fcp.enums) + effect_result("call:FcpV2Transformer().transform", 0).unwrap().enums
+                            and self.fcp.impls == old(self.fcp.impls) + effect_result("call:FcpV2Transformer().transform", 0).unwrap().impls
+                            and self.fcp.services == old(self.fcp.services) + effect_result("call:FcpV2Transformer().transform", 0).unwrap().services
+                            and self.fcp.devices == old(self.fcp.devices) + effect_result("call:FcpV2Transformer().transform", 0).unwrap().devices))
+    # errors: a missing file, a syntax error in the module and an error returned by the nested transformer all give Err and leave the schema alone
+    ensures_effects(implies(effect_count("raise:read_file") == 1, result.is_err()))
+    ensures_effects(implies(effect_count("raise:lark.Lark().parse") == 1, result.is_err()))
+    ensures(implies(result.is_err(), self.fcp.structs == old(self.fcp.structs) and self.fcp.enums == old(self.fcp.enums)
+                    and self.fcp.impls == old(self.fcp.impls) and self.fcp.services == old(self.fcp.services)
+                    and self.fcp.devices == old(self.fcp.devices)))
